@@ -71,3 +71,33 @@ func (sc *RepeatDestroy) Fire(w *World, sender *Acct) *TxPlan {
 	to := sc.Orch
 	return w.PlanEth(sender, &to, sc.PaidIn, 1_500_000, nil, "ok", nil)
 }
+
+// RevertedDestroy: a vault (as in RepeatDestroy, endowed with v at creation), a middle contract that calls the vault
+// without value or data - the vault self-destructs toward the beneficiary - and then REVERTs, and a top contract that
+// first pays the vault one unit (so that the vault is touched OUTSIDE the frame that will be rolled back), then calls the
+// middle one and ignores its failure. The self-destruct happened in a frame that was rolled back: after the transaction
+// the vault still exists, with its code and v + 1, and the beneficiary got nothing.
+type RevertedDestroy struct {
+	Vault, Mid, Top, Beneficiary common.Address
+	Deploy                       []*TxPlan // three create transactions of owner (vault, middle, top)
+}
+
+func (w *World) PlanRevertedDestroy(owner *Acct, beneficiary common.Address, v *big.Int) *RevertedDestroy {
+	nonce := w.NextNonce(owner.Addr)
+	vault := NewAsm().Op(vm.CALLVALUE).JumpI("keep").PushAddr(beneficiary).Op(vm.SELFDESTRUCT).Label("keep").Op(vm.STOP).Bytes()
+	sc := &RevertedDestroy{Beneficiary: beneficiary, Vault: crypto.CreateAddress(owner.Addr, nonce), Mid: crypto.CreateAddress(owner.Addr, nonce+1), Top: crypto.CreateAddress(owner.Addr, nonce+2)}
+	mid := &Node{Addr: sc.Mid, Kind: CALL, OnFail: "ignore", End: "revert", Steps: []Step{{Ext: &ExtCall{Kind: CALL, To: sc.Vault, StoreOK: -1}}}}
+	top := &Node{Addr: sc.Top, End: "stop", Steps: []Step{{Ext: &ExtCall{Kind: CALL, To: sc.Vault, Value: big.NewInt(1), StoreOK: -1}}, {Child: mid}}}
+	sc.Deploy = []*TxPlan{
+		w.PlanEth(owner, nil, v, 400_000, Deployer(vault), "ok", nil),
+		w.PlanEth(owner, nil, nil, 1_200_000, Deployer(mid.Code()), "ok", nil),
+		w.PlanEth(owner, nil, nil, 1_200_000, Deployer(top.Code()), "ok", nil),
+	}
+	return sc
+}
+
+// Fire plans the transaction that runs the scenario (a call of the top contract carrying the one unit it passes on).
+func (sc *RevertedDestroy) Fire(w *World, sender *Acct) *TxPlan {
+	to := sc.Top
+	return w.PlanEth(sender, &to, big.NewInt(1), 1_500_000, nil, "ok", nil)
+}
